@@ -1,17 +1,31 @@
 ------------------------------- MODULE Sim_Lanes ------------------------------
 \* Random behaviours of Lanes (tlc -simulate) over scopes whose state graph is too large to dump,
 \* with the call sequence recorded and the ghost P riding along (PAccepts is checked on every state
-\* of these long behaviours, without the lag bound of the exhaustive runs).  The simulator evaluates
-\* invariants on every candidate successor, so the path is printed from the single successor ("end")
-\* of the state actually chosen after PathLen calls: one REPLAY line per behaviour.
+\* of these long behaviours, without the lag bound of the exhaustive runs).
+\*
+\* The simulator picks uniformly among the successor states, and a lane has many more ways of being
+\* written to (keys x values x code paths) than of being asked to write: left alone, the queues of a
+\* simulated lane are never drained.  The choice is therefore made in two stages: first the class of
+\* the next call (a write / a sync / anything), then a call of that class (write_to_buffer is always
+\* enabled, so it is the fallback of every class).
+\*
+\* The simulator evaluates invariants on every candidate successor, so the path is printed from the
+\* single successor ("end") of the state actually chosen after PathLen calls: one REPLAY line per
+\* behaviour.
 EXTENDS Lanes, Json
 CONSTANT PathLen
-VARIABLE path
-SimInit == Init /\ path = << >>
+VARIABLES path, cls
+SimInit == Init /\ path = << >> /\ cls = ""
+InClass(c, a) ==
+    \/ a.k = "write"
+    \/ c = "sync" /\ a.k \in {"sync", "dsync"}
+    \/ c = "any" /\ a.k \notin {"sync", "dsync"}
 SimNext == IF Len(path) < PathLen
-           THEN Next /\ path' = Append(path, lastAct')
+           THEN IF cls = ""
+                THEN cls' \in {"write", "sync", "any"} /\ UNCHANGED <<vars, path>>
+                ELSE Next /\ InClass(cls, lastAct') /\ path' = Append(path, lastAct') /\ cls' = ""
            ELSE /\ Len(path) = PathLen
-                /\ UNCHANGED vars
+                /\ UNCHANGED <<vars, cls>>
                 /\ path' = Append(path, [k |-> "end"])
 PathDump == (Len(path) = PathLen + 1) => PrintT(<<"REPLAY", ToJson(SubSeq(path, 1, PathLen))>>)
 =============================================================================
